@@ -324,6 +324,27 @@ func runRoute(t *testing.T, c spec.Case, e Em) {
 			wg.Wait()
 			return
 		}
+		if it.ClosedUnderDial && p.Kind == "grpcmux" {
+			pid := id + 500000
+			h := vp.GRPCAcceptRaw(ag, pid, "closed-under-dial")
+			if h.Err == nil {
+				point := "grpcmux.server.accepted" // the plugin side's muxer has the stream in hand
+				if it.Dir == "plugin" {
+					point = "grpcmux.client.unblocked" // the host side's listener has been unblocked by the knock
+				}
+				var fired atomic.Bool
+				closeAtArrival.Store(&arrivalClose{point: point, do: func() {
+					fired.Store(true)
+					h.CloseListener()
+					time.Sleep(50 * time.Millisecond)
+				}})
+				r := vp.GRPCDialPing(dg, pid, 8*time.Second, true)
+				closeAtArrival.Store(nil)
+				e.Note("closed-under-dial", fmt.Sprintf("id=%d hook-fired=%v dialErr=%q pingErr=%q", pid, fired.Load(), r.DialErr, r.PingErr))
+				h.CloseListener()
+				go h.StopServer()
+			}
+		}
 		if it.StaleDial && p.Kind == "grpc" {
 			if r := vp.GRPCDialPing(dg, id, 10*time.Second, true); r.DialErr == "" && r.PingErr == "" {
 				e.Note("stale-dial-succeeded", fmt.Sprint(id))
@@ -515,9 +536,23 @@ var pickupHold sync.Map  // uint32 -> time.Duration
 var lineUpFlags sync.Map // uint32 -> *atomic.Bool, set when the id arrived at the accepting side's Run
 var gotInfoHold sync.Map // the same for Dials held at grpcbroker.dial.gotInfo
 
+// closeAtArrival: armed by a ClosedUnderDial item (its case runs alone in its host child): the next time the
+// named hook point is passed, the action runs there once.
+type arrivalClose struct {
+	point string
+	do    func()
+}
+
+var closeAtArrival atomic.Pointer[arrivalClose]
+
 func routeTest(t *testing.T, par int, points ...string) {
 	jit := vp.Jitter(seedEnv(), 3000, &routeHooks, points...)
 	plugin.VerifSetHook(func(name string, id uint32) {
+		if ac := closeAtArrival.Load(); ac != nil && ac.point == name && closeAtArrival.CompareAndSwap(ac, nil) {
+			routeHooks.Inc(name)
+			ac.do()
+			return
+		}
 		if name == "mux.run.gotID" {
 			if f, ok := lineUpFlags.Load(id); ok {
 				routeHooks.Inc(name)
